@@ -791,3 +791,35 @@ def named_local_origin(fa, name):
                 if d[0] == "call":
                     return fa.origin_call(d[1], d[4])
     return None
+
+
+def every_element_reaches(fa, next_site, site):
+    """in an iterator loop driven by `next_site`: every element obtained (Some edge)
+    passes `site` before the next element is requested or the loop is left"""
+    sw = [x for x in switch_edges_on(fa, lambda o: o[0] == "disc" and next_site in call_root_bb(o[1]))]
+    if not sw:
+        return None
+    some_t = sw[0][2].get(1)
+    if some_t is None:
+        return None
+    if some_t == site:
+        return True
+    if fa.can_reach(some_t, next_site, avoiding=[site]):
+        return False
+    # nor leave the function normally without it
+    for r in fa.returns:
+        if fa.can_reach(some_t, r, avoiding=[site, next_site]):
+            # leaving through an error return is fine
+            vals = [t for bb, _, t in ret_assigns(fa) if bb in fa.reach(some_t, avoiding=[site, next_site], include_src=True)]
+            if any(is_agg(v, "Ok") for v in vals) or not vals:
+                return False
+    return True
+
+
+def iterator_loops(fa, over_substr):
+    """next() sites whose iterator derives from a term containing over_substr"""
+    out = []
+    for s in sites(fa, "std::iter::Iterator::next"):
+        if over_substr in term_str(fa.arg_origin(s, 0)):
+            out.append(s)
+    return out
